@@ -122,7 +122,8 @@ def aggregate(prop, contracts, lemmas, out):
         for x in r["results"]:
             name = f"{prop}/{c.name}/{x['name']}"
             o = obs.setdefault(name, dict(status="proved", backends=set(), secs=0.0, paths=0, fail=None,
-                                          contract=i, kind=x["kind"], sname=x["name"].split("/")[0]))
+                                          contract=i, kind=x["kind"], sname=x["name"].split("/")[0],
+                                          bound=getattr(c, "bound", None)))
             o["paths"] += 1
             o["secs"] += x["secs"]
             o["backends"].add(x["backend"])
@@ -139,7 +140,7 @@ def aggregate(prop, contracts, lemmas, out):
         for x in r["results"]:
             name = f"{prop}/lemma/{x['name']}"
             o = obs.setdefault(name, dict(status="proved", backends=set(), secs=0.0, paths=0, fail=None,
-                                          contract=None, kind="lemma", sname=None))
+                                          contract=None, kind="lemma", sname=None, bound=None))
             o["paths"] += 1
             o["secs"] += x["secs"]
             o["backends"].add(x["backend"])
